@@ -56,8 +56,8 @@ def rule_r1_r2(ctx: Ctx) -> None:
     un = ctx.cls(SER + "_composite.UnionType")
     bases = [TBls.var("BASE", 1), TBls.var("BASE8", 8), TBls.of(0)]
     for c in (st, un):
-        fn = c.methods.get("iterate_fields_with_offsets")
-        agg = c.methods.get("aggregate_bit_length_sets")
+        fn = repo.lookup_method(c, "iterate_fields_with_offsets")
+        agg = repo.lookup_method(c, "aggregate_bit_length_sets")
         if fn is None or agg is None:
             raise AnalysisError("anchor %s.iterate_fields_with_offsets / aggregate_bit_length_sets missing" % c.name)
         bad1, bad2 = [], []
@@ -107,7 +107,7 @@ def rule_r1_r2(ctx: Ctx) -> None:
     ctx.check(not bad, st.short, "iterator step == aggregation step (pad to the field's alignment, then add its set)", "the offsets handed to code generators and the length model are the same computation", st.module.relpath, bad[:2], rule="C08.R1")
 
     dl = ctx.cls(SER + "_composite.DelimitedType")
-    fn = dl.methods.get("iterate_fields_with_offsets")
+    fn = repo.lookup_method(dl, "iterate_fields_with_offsets")
     if fn is None:
         raise AnalysisError("anchor DelimitedType.iterate_fields_with_offsets missing")
     bad = []
@@ -151,7 +151,7 @@ def rule_r1_r2(ctx: Ctx) -> None:
     ctx.check(not bad2, fn.short, "each element yielded once, in order", "no element may be skipped or repeated", fn.where(), bad2[:2], rule="C08.R2")
     # service types have no offsets
     sv = ctx.cls(SER + "_composite.ServiceType")
-    m = sv.methods.get("iterate_fields_with_offsets")
+    m = repo.lookup_method(sv, "iterate_fields_with_offsets")
     ctx.check(m is not None and any(isinstance(x, ast.Raise) for x in ast.walk(m.node)), sv.short + ".iterate_fields_with_offsets", "raises", "a service type has no serializable fields", sv.module.relpath, rule="C08.R1", nontrivial=False)
     ctx.sample({"rule": "C08.R1", "structure over [T0(1), T1(8)] at BASE": [repr(base) for base in bases]})
 
